@@ -1,0 +1,81 @@
+//! Verification hooks. Compiled only with the `verif` cargo feature (off by default).
+//!
+//! Nothing here changes control flow: sync points call an optional hook (used to
+//! inject delays and to count coverage), the clock override only affects TTL
+//! expiry checks, and `Store::verif_raw_keys` (in store/mod.rs) is read-only.
+
+use std::sync::atomic::{AtomicBool, AtomicU64, Ordering};
+use std::sync::{Arc, OnceLock, RwLock};
+
+use scru128::Scru128Id;
+
+pub type Hook = Arc<dyn Fn(&'static str, Option<Scru128Id>) + Send + Sync>;
+
+static HOOK_SET: AtomicBool = AtomicBool::new(false);
+static HOOK: RwLock<Option<Hook>> = RwLock::new(None);
+static NOW_MS: AtomicU64 = AtomicU64::new(0);
+static ENV_INIT: OnceLock<()> = OnceLock::new();
+
+/// Install (or clear) the sync-point hook.
+pub fn set_hook(hook: Option<Hook>) {
+    let mut guard = HOOK.write().unwrap();
+    HOOK_SET.store(hook.is_some(), Ordering::SeqCst);
+    *guard = hook;
+}
+
+/// Called at named points of the store / handler code.
+pub fn sync_point(name: &'static str, id: Option<&Scru128Id>) {
+    ENV_INIT.get_or_init(init_from_env);
+    if !HOOK_SET.load(Ordering::Relaxed) {
+        return;
+    }
+    let hook = HOOK.read().unwrap().clone();
+    if let Some(hook) = hook {
+        hook(name, id.copied());
+    }
+}
+
+/// Freeze "now" (milliseconds since the epoch) for TTL expiry checks; `None` = real clock.
+pub fn set_now(ms: Option<u64>) {
+    NOW_MS.store(ms.unwrap_or(0), Ordering::SeqCst);
+}
+
+pub fn now_override() -> Option<u64> {
+    match NOW_MS.load(Ordering::SeqCst) {
+        0 => None,
+        ms => Some(ms),
+    }
+}
+
+/// `XS_VERIF_JITTER=seed,permille,max_us[,prefix]`: a default hook for stand-alone
+/// binaries that sleeps up to `max_us` at a sync point with probability permille/1000
+/// (only at points whose name starts with `prefix`, when given).
+fn init_from_env() {
+    let Ok(spec) = std::env::var("XS_VERIF_JITTER") else {
+        return;
+    };
+    let parts: Vec<&str> = spec.split(',').collect();
+    if parts.len() < 3 {
+        return;
+    }
+    let seed: u64 = parts[0].parse().unwrap_or(1);
+    let permille: u64 = parts[1].parse().unwrap_or(0);
+    let max_us: u64 = parts[2].parse().unwrap_or(0);
+    let prefix: String = parts.get(3).map(|s| s.to_string()).unwrap_or_default();
+    let state = AtomicU64::new(seed);
+    set_hook(Some(Arc::new(move |name, _| {
+        if !name.starts_with(&prefix) {
+            return;
+        }
+        // splitmix64 step
+        let mut z = state
+            .fetch_add(0x9E37_79B9_7F4A_7C15, Ordering::Relaxed)
+            .wrapping_add(0x9E37_79B9_7F4A_7C15);
+        z = (z ^ (z >> 30)).wrapping_mul(0xBF58_476D_1CE4_E5B9);
+        z = (z ^ (z >> 27)).wrapping_mul(0x94D0_49BB_1331_11EB);
+        z ^= z >> 31;
+        if max_us > 0 && z % 1000 < permille {
+            std::thread::sleep(std::time::Duration::from_micros((z >> 16) % max_us + 1));
+        }
+    })));
+}
